@@ -25,9 +25,9 @@ CHECKS = {
         'technique': 'contract-based deductive verification (Verus panic-freedom obligations on real bodies) + bounded Kani pointer-safety harnesses on the real unsafe kernels',
     },
     'C16': {
-        'text': 'Unbounded deductive proof (Verus) on the verbatim bodies of BitVec::{test,set,unset,count,len}, Sampler::{exclude_sequence, include_sequence} and Iterator::next for Sampler: the representation invariant "motif count matrix = counts of the width-long windows at the starts of the active sequences; background counts = symbol counts of those sequences outside their windows; every start leaves the window inside its sequence; active.count is the number of active sequences" is preserved by every update from an arbitrary state satisfying it (hence at every step of every run, by induction), including all u32/usize underflow/overflow obligations (which depend on the order of the two background loops); next() reports the counts of the alignment without the held-out sequence. Random draws and the float scoring step enter through assumed contracts.',
+        'text': 'Unbounded deductive proof (Verus) on the verbatim bodies of BitVec::{test,set,unset,count,len}, BitVec::{zeros,ones}, Sampler::{_new, exclude_sequence, include_sequence, select_holdout, update_holdout, count_matrix, background, prepare_pssm} and Iterator::next for Sampler: the representation invariant "motif count matrix = counts of the width-long windows at the starts of the active sequences; background counts = symbol counts of those sequences outside their windows; every start leaves the window inside its sequence; active.count is the number of active sequences" is established by Sampler::_new (induction base) and preserved by every update from an arbitrary state satisfying it (hence at every step of every run, by induction), including all u32/usize underflow/overflow obligations (which depend on the order of the two background loops); next() reports the counts of the alignment without the held-out sequence; update_holdout is proved to draw the new start from exactly the L-w+1 valid positions (from the contracts of Score::score_into and StripedScores::iter proved for C01 and the assumed contract of the WeightedIndex type of rand). Random draws and the float scoring step enter through assumed contracts.',
         'design_ref': 'DESIGN.md section 5, C16',
-        'note': 'Trusted: Verus/Z3; rand contracts (A-R1/2), prepare_pssm (A-F9), establishment of the invariant by _new / SamplerData::new (not extractable: iterator chains + rand). Determinism clause: argued, not proved.',
+        'note': 'Trusted: Verus/Z3; rand contracts (A-R1, A-R4), the dispatched f32 score_into contract (A-DISP4), to_freq / into_scoring row counts (A-F9a/b), derived Clone (A-CLONE), Background::from_counts/default (A-BG1/2), the cached counts of SamplerData::new (a map/collect chain, not extractable); rand adapters of _new (A-R5, A-R6, A-W9). Determinism clause: argued, not proved.',
         'technique': 'contract-based deductive verification (Verus, real bodies extracted per run): representation invariant + frame conditions',
     },
     'C14': {
@@ -67,10 +67,10 @@ CHECKS = {
         'technique': 'contract-based deductive verification (Verus) + lemmas + complete Kani table harness',
     },
     'C09': {
-        'text': 'Partial: unbounded deductive proof (Verus) of CountMatrix::from_sequences on its verbatim body (count matrix holds exactly the per-position occurrence counts; Err exactly when lengths differ). The frequency/weight/log-odds conversions, min/max score bounds and Background validation are written with iterator adapters and float numerics that neither installed verifier can bring under contract; they are listed as not covered rather than claimed.',
-        'design_ref': 'DESIGN.md section 5, C09',
-        'note': 'Trusted: Verus/Z3; S1 instantiation of the generic iterator parameter; extraction rules R1, R4, T1. The float clauses of C09 (rows sum to one, weight = freq/background, log, min/max score bounds, rejection of invalid backgrounds) are NOT decided by this check.',
-        'technique': 'contract-based deductive verification (Verus, real body extracted per run)',
+        'text': 'Unbounded deductive proof (Verus) on verbatim bodies of CountMatrix::from_sequences (the count matrix holds exactly the per-position occurrence counts; Err exactly when lengths differ), CountMatrix::to_freq (cell = (count + pseudocount) / row total of those sums), FrequencyMatrix::to_weight (cell = frequency / background of its column, zero where the background is zero) and FrequencyMatrix::into_scoring (cell = log2(frequency / background), negative infinity where the background is zero). IEEE arithmetic is left UNINTERPRETED: the proofs decide which operands each cell is computed from, for every matrix size and alphabet, not numeric facts. The numeric clauses (rows sum to one, min/max score bounds), FrequencyMatrix::new, Background validation, to_scoring_with_base and rescale are written as iterator-adapter chains / float literal patterns outside the verifier and are covered by the bounded native sweep only.',
+        'design_ref': 'DESIGN.md section 5, C09; section 11.8',
+        'note': 'Trusted: Verus/Z3; float operations uninterpreted (A-F0..2, A-W10); S1/S2 instantiations; desugaring rules R1, R4, T1, RIM, RIMm, RZR, RZE, RZM (row iterators visit rows in order: A-IT2).',
+        'technique': 'contract-based deductive verification (Verus, real bodies extracted per run; floats uninterpreted); native sweep as bounded cross-check',
     },
     'C05': {
         'text': 'Unbounded deductive proof (Verus) of Encode::{encode_into, encode_raw, encode} (default impls) on verbatim bodies for every alphabet and every byte string: success iff every byte is valid, result symbol i is the symbol of byte i, failure reports the first offending byte. The per-byte table facts (from_ascii/as_ascii/as_index for Nucleotide and AminoAcid) are discharged by loop-free Kani harnesses over all 256 bytes (complete). SSE2/AVX2 encoders: bounded Kani stand-ins (thorough tier) only.',
